@@ -12,8 +12,10 @@ Definition endian_eqb (a b : endian) : bool :=
   match a, b with LE, LE | BE, BE => true | _, _ => false end.
 
 (* ------------------------------------------------------------------ integers *)
+(* low byte first; [N.land n 255] = n mod 256 and [N.shiftr n 8] = n / 256 (lemmas below), written with
+   bit operations because they evaluate much faster than binary division *)
 Fixpoint le_bytes (k : nat) (n : N) : bytes :=
-  match k with O => [] | S k' => (n mod 256) :: le_bytes k' (n / 256) end.
+  match k with O => [] | S k' => N.land n 255 :: le_bytes k' (N.shiftr n 8) end.
 Fixpoint le_val (l : bytes) : N :=
   match l with [] => 0 | b :: r => b + 256 * le_val r end.
 Definition enc (e : endian) (k : nat) (n : N) : bytes :=
@@ -21,7 +23,6 @@ Definition enc (e : endian) (k : nat) (n : N) : bytes :=
 Definition dec (e : endian) (l : bytes) : N :=
   match e with LE => le_val l | BE => le_val (rev l) end.
 
-Definition u8 (n : N) : bytes := [n mod 256].
 Definition u32 (e : endian) (n : N) : bytes := enc e 4 n.
 Definition u64 (e : endian) (n : N) : bytes := enc e 8 n.
 Definition f64 (e : endian) (bits : N) : bytes := enc e 8 bits.
@@ -29,6 +30,11 @@ Definition f32 (e : endian) (bits : N) : bytes := enc e 4 bits.
 
 Definition two32 : N := 4294967296.
 Definition two64 : N := 18446744073709551616.
+
+Lemma land255 : forall n, N.land n 255 = n mod 256.
+Proof. intros. change 255 with (N.ones 8). rewrite N.land_ones. reflexivity. Qed.
+Lemma shiftr8 : forall n, N.shiftr n 8 = n / 256.
+Proof. intros. rewrite N.shiftr_div_pow2. reflexivity. Qed.
 
 Lemma le_bytes_length : forall k n, length (le_bytes k n) = k.
 Proof. induction k; intros; cbn [le_bytes length]; auto. Qed.
@@ -43,7 +49,7 @@ Lemma le_val_le_bytes : forall k n, n < 256 ^ N.of_nat k -> le_val (le_bytes k n
 Proof.
   induction k; intros n H.
   - change (256 ^ N.of_nat 0) with 1 in H. cbn [le_bytes le_val]. lia.
-  - rewrite pow256_succ in H. cbn [le_bytes le_val].
+  - rewrite pow256_succ in H. cbn [le_bytes le_val]. rewrite land255, shiftr8.
     rewrite IHk.
     + pose proof (N.div_mod' n 256). lia.
     + apply N.div_lt_upper_bound; lia.
@@ -57,7 +63,7 @@ Qed.
 Lemma le_bytes_small : forall k n, Forall (fun b => b < 256) (le_bytes k n).
 Proof.
   induction k; intros; cbn [le_bytes]; constructor; auto.
-  apply N.mod_lt; lia.
+  rewrite land255. apply N.mod_lt; lia.
 Qed.
 
 Lemma enc_small : forall e k n, Forall (fun b => b < 256) (enc e k n).
